@@ -918,6 +918,18 @@ func Vacuum(ctx context.Context, tableName string, beforeTime time.Time) error {
 		// transaction's writes early and make ROLLBACK ineffective
 		return errors.New("cannot vacuum inside a transaction")
 	}
+	if !table.S3Options.ReadOnly {
+		// Purging delete markers is only safe against versions this handle
+		// has merged: an unmerged version of another writer may still hold
+		// an older copy of a purged row, which would come back.
+		others, err := table.Tree.Root.UnmergedVersions(ctx)
+		if err != nil {
+			return fmt.Errorf("list versions: %w", err)
+		}
+		if len(others) > 0 {
+			return fmt.Errorf("%d version(s) committed by other writers are not merged into %s yet; run s3db_refresh('%s') first", len(others), tableName, tableName)
+		}
+	}
 	db, err := table.Tree.Root.Clone(ctx)
 	if err != nil {
 		return fmt.Errorf("clone: %w", err)
